@@ -157,6 +157,23 @@ fn timeout_at_any_time() {
     shutdown(&pool);
 }
 
+/// every handle to the pool goes away right after a job was accepted by an idle worker: the
+/// accepted job must still run (the worker may only retire once the channel is empty)
+fn drop_after_dispatch() {
+    reset(1);
+    let pool = AsyncifyPool::new(1, Duration::from_secs(60));
+    let done = Done::new();
+    submit(&pool, 0, &done);
+    done.wait_for(1);
+    // accepted either by the now idle worker (through the channel) or, if it already retired, by a
+    // fresh one
+    submit(&pool, 1, &done);
+    drop(pool);
+    done.wait_for(2);
+    assert_eq!(RAN[1].load(SeqCst), 1, "ORACLE[job-count] the job accepted before the pool was dropped ran {} times", RAN[1].load(SeqCst));
+    outcome(8);
+}
+
 pub fn scenarios() -> Vec<Scenario> {
     vec![
         Scenario { name: "pool_timeout_any_time", property: "C17", about: "the idle timeout elapses at an arbitrary moment while one job is being dispatched to a fresh worker", run: timeout_at_any_time, thorough_only: false, heavy: false },
@@ -164,6 +181,7 @@ pub fn scenarios() -> Vec<Scenario> {
         Scenario { name: "pool_l1_d2_j1", property: "C17", about: "thread_limit 1, two dispatcher threads (two runtimes sharing the pool), one job each", run: || dispatchers(1, 2, 1), thorough_only: false, heavy: true },
         Scenario { name: "pool_l2_d2_j1", property: "C17", about: "thread_limit 2, two dispatcher threads, one job each", run: || dispatchers(2, 2, 1), thorough_only: false, heavy: true },
         Scenario { name: "pool_l2_d3_j1", property: "C17", about: "thread_limit 2, three dispatcher threads, one job each", run: || dispatchers(2, 3, 1), thorough_only: true, heavy: true },
+        Scenario { name: "pool_drop_after_dispatch", property: "C17", about: "the last pool handle is dropped right after a job was accepted by an idle worker: the job still runs", run: drop_after_dispatch, thorough_only: false, heavy: false },
         Scenario { name: "pool_retire_then_job", property: "C17", about: "worker retires after the idle timeout, a later job still runs", run: retire_then_job, thorough_only: false, heavy: false },
     ]
 }
